@@ -83,8 +83,12 @@ def case_kernel(col, p):
     import dadi.integration_c as ic
     d, axis, G, rot = p['d'], p['axis'], p['G'], p['rot']
     grids = space.grids_for_axes(d, G, seed=p['seed'], rot=rot)
-    shape = (G,) * d
-    N = G ** d
+    if p.get('lens'):
+        # a different NUMBER of grid points on every axis (the kernels take one grid per axis): strides and extents no longer coincide
+        kinds = ['D', 'E', 'U', 'D2', 'E']
+        grids = [space.grid(kinds[(q + rot) % 5], n_q, p['seed'] + q) for q, n_q in enumerate(p['lens'])]
+    shape = tuple(len(g) for g in grids)
+    N = int(np.prod(shape))
     k = d - 1
     eye = np.eye(N)
     rng = np.random.RandomState(p['seed'] + 99)
@@ -101,7 +105,7 @@ def case_kernel(col, p):
         col.tick(transitions=N)
         op1 = RS.sweep_operator(grids, axis, nu, ms, gamma, h, dt, beta=beta, use_delj=bool(delj), form='R1')
         R1 = full_reference(grids, axis, op1)
-        info = dict(d=d, axis=axis, G=G, rot=rot, seed=p['seed'], conf=conf, kind='kernel', configs=[conf])
+        info = dict(d=d, axis=axis, G=G, rot=rot, seed=p['seed'], conf=conf, kind='kernel', configs=[conf], lens=p.get('lens'))
         if p.get('r2') and (ci % p['r2'] == 0):
             op2 = RS.sweep_operator(grids, axis, nu, ms, gamma, h, dt, beta=beta, use_delj=bool(delj), form='R2')
             R2 = full_reference(grids, axis, op2)
@@ -142,7 +146,7 @@ def case_kernel(col, p):
             col.violation('C02:implicit_%dD%s:nonlinear' % (d, AX[axis]), info, {'maxerr': float(e2)})
         nconf += 1
     col.tick(states=nconf * N, traces=nconf)
-    col.distinct('nontrivial', ('kernel', d, axis, G, rot, len(p['configs']), p['configs'][0]))
+    col.distinct('nontrivial', ('kernel', d, axis, G, rot, len(p['configs']), p['configs'][0], tuple(p.get('lens') or ())))
 
 
 def _coef_arrays(shape, seed, which):
@@ -158,8 +162,9 @@ def _coef_arrays(shape, seed, which):
 def case_precalc(col, p):
     import dadi.integration_c as ic
     d, axis, G, dt = p['d'], p['axis'], p['G'], p['dt']
-    shape = (G,) * d
-    N = G ** d
+    shape = tuple(p['lens']) if p.get('lens') else (G,) * d       # lens: a different number of grid points on every axis
+    N = int(np.prod(shape))
+    G = shape[axis]
     a, b, c = _coef_arrays(shape, p['seed'], axis)
     fn = getattr(ic, 'implicit_precalc_%dD%s' % (d, AX[axis]))
     eye = np.eye(N)
@@ -174,7 +179,7 @@ def case_precalc(col, p):
     flat = np.arange(N).reshape(shape)
     oth = [k for k in range(d) if k != axis]
     fdt = Fraction(dt)
-    for oidx in np.ndindex(*[G] * (d - 1)):
+    for oidx in np.ndindex(*[shape[k] for k in oth]):
         sl = [None] * d
         for k, i in zip(oth, oidx):
             sl[k] = i
@@ -203,7 +208,7 @@ def case_precalc(col, p):
     if not (np.array_equal(a0, a1) and np.array_equal(b0, b1) and np.array_equal(c0, c1)):
         col.violation('C02:implicit_precalc_%dD%s:coefficients_modified' % (d, AX[axis]), info, '')
     col.tick(states=N, traces=1)
-    col.distinct('nontrivial', ('precalc', d, axis, G, dt))
+    col.distinct('nontrivial', ('precalc', d, axis, shape, dt))
 
 
 def case_tridiag(col, p):
@@ -357,6 +362,101 @@ def case_driver(col, p):
     col.distinct('nontrivial', ('driver', d, G, p['grid'], tuple(nus), tuple(gammas), T, delj, tuple(p.get('units', ())), multistep, json.dumps(p['mig'])[:80]))
 
 
+def case_driver_varying(col, p):
+    """several steps with parameters that really change in time.  The documented scheme is fully implicit: the step [t, t+dt] is sized by the
+    time-step rule from the parameters in force at t and solved with the parameters of t+dt - every family (sizes, migration rates, selection,
+    dominance, influx) alike.  Reference: the exact one-step operator applied step by step with those parameters.  Families vary one at a time
+    and all together."""
+    from dadi import Integration
+    d, G = p['d'], p['G']
+    xx = space.grid(p['grid'], G, p['seed'])
+    shape = (G,) * d
+    N = G ** d
+    tf, delj = p['tf'], p['delj']
+    nus0, gammas0, hs0, theta00 = p['nus'], p['gammas'], p['hs'], p['theta0']
+    mig0 = {tuple(k): v for k, v in p['mig']}
+    fam = p['family']
+
+    def rule_dt(nus, mig, gammas, hs):
+        dts = []
+        for k in range(d):
+            sm = sum(mig.get((k, j), 0.0) for j in range(d) if j != k)
+            hk, gk = hs[k], gammas[k]
+            maxVM = max(0.25 / nus[k], sm, abs(gk) * 2 * max(abs(hk + (1 - 2 * hk) * 0.5) * 0.25, abs(hk + (1 - 2 * hk) * 0.25) * 0.1875))
+            dts.append(tf / maxVM)
+        return min(dts)
+    T = 3.5 * rule_dt(nus0, mig0, gammas0, hs0)
+
+    def vary(name, v, q):
+        # a distinct, strictly monotone time course per parameter (so that a parameter read at the wrong time, or another parameter's value, shows)
+        on = fam == 'all' or fam == name
+        if not on:
+            return (lambda t, v=v: v)
+        if name == 'h':
+            return (lambda t, v=v, q=q: v + (0.3 + 0.05 * q) * t / T)
+        if name == 'nu':
+            return (lambda t, v=v, q=q: v / (1.0 + (1.0 + 0.5 * q) * t / T))
+        return (lambda t, v=v, q=q: v * (1.0 + (1.5 + 0.25 * q) * t / T))
+    f_nu = [vary('nu', nus0[k], k) for k in range(d)]
+    f_ga = [vary('gamma', gammas0[k], k) for k in range(d)]
+    f_h = [vary('h', hs0[k], k) for k in range(d)]
+    f_m = {ij: vary('m', v, 2 * ij[0] + ij[1]) for ij, v in mig0.items()}
+    f_th = vary('theta0', theta00, 0)
+    if d == 1:
+        kw = dict(nu=f_nu[0], gamma=f_ga[0], h=f_h[0], theta0=f_th, beta=p.get('beta', 1))
+    else:
+        kw = {'theta0': f_th}
+        for k in range(d):
+            kw['nu%d' % (k + 1)], kw['gamma%d' % (k + 1)], kw['h%d' % (k + 1)] = f_nu[k], f_ga[k], f_h[k]
+        for (i, j), f in f_m.items():
+            kw['m%d%d' % (i + 1, j + 1)] = f
+
+    def at(t):
+        return ([f(t) for f in f_nu], {ij: f(t) for ij, f in f_m.items()}, [f(t) for f in f_ga], [f(t) for f in f_h], f_th(t))
+
+    def reference(phi0):
+        phi, t, n = phi0.copy(), 0.0, 0
+        while t < T:
+            nus, mig, gammas, hs, _ = at(t)
+            this_dt = min(rule_dt(nus, mig, gammas, hs), T - t)
+            nus, mig, gammas, hs, th = at(t + this_dt)
+            phi = _ref_step(phi, xx, d, this_dt, nus, mig, gammas, hs, th, delj, beta=p.get('beta', 1) if d == 1 else None)
+            t += this_dt
+            n += 1
+        return phi, n
+    old = (Integration.timescale_factor, Integration.use_delj_trick)
+    Integration.timescale_factor, Integration.use_delj_trick = tf, bool(delj)
+    try:
+        drv = _driver(d)
+        inputs = [('zero', np.zeros(shape))]
+        lo, hi = p.get('units', (0, N))
+        for j in range(lo, hi):
+            e = np.zeros(N)
+            e[j] = 1.0
+            inputs.append(('unit%d' % j, e.reshape(shape)))
+        for name, phi0 in inputs:
+            ref, nsteps = reference(phi0)
+            if nsteps < 3:
+                col.violation('harness:C02:varying_steps', dict(p, input=name), {'steps': nsteps})
+            try:
+                out = np.array(drv(phi0.copy(), xx, T, **kw))
+            except Exception as e:
+                col.violation('C02:driver%d:varying:raises' % d, dict(p, input=name), '%s: %s' % (type(e).__name__, e))
+                continue
+            col.tick(transitions=1)
+            scale = max(1.0, float(np.abs(ref).max()))
+            err = float(np.abs(out - ref).max())
+            tol = (1e-8 if delj else 1e-9) * scale
+            if not err <= tol:
+                col.violation('C02:driver%d:varying_%s:vs_scheme' % (d, fam), dict(p, input=name), {'maxerr': err, 'scale': scale, 'steps': nsteps})
+            else:
+                col.observe('driver_varying_vs_scheme', err / tol)
+        col.tick(states=len(inputs), traces=len(inputs))
+    finally:
+        Integration.timescale_factor, Integration.use_delj_trick = old
+    col.distinct('nontrivial', ('driver_varying', d, G, fam, tuple(p.get('units', ()))))
+
+
 def case_driver_history(col, p):
     """constant-parameter drivers called in sequence on different grids of the SAME length (and again on the first): every call must equal
     the reference for its own grid (precomputed coefficients / normalisation factors must not leak between calls)"""
@@ -399,7 +499,7 @@ def case_driver_history(col, p):
     col.distinct('nontrivial', ('driver_history', d, G))
 
 
-CASES = {'driver_history': case_driver_history, 'kernel': case_kernel, 'precalc': case_precalc, 'tridiag': case_tridiag, 'driver': case_driver}
+CASES = {'driver_history': case_driver_history, 'kernel': case_kernel, 'precalc': case_precalc, 'tridiag': case_tridiag, 'driver': case_driver, 'driver_varying': case_driver_varying}
 
 
 def _dispatch(col, case):
@@ -445,6 +545,16 @@ def run(ctx):
                     for lo in range(0, len(confs), per):
                         cases.append({'kind': 'kernel', 'd': d, 'axis': axis, 'G': G, 'rot': rot, 'seed': ctx.seed,
                                       'configs': confs[lo:lo + per], 'r2': 1 if d <= 3 else 4})
+    LENS = {2: [(3, 5), (5, 4)], 3: [(3, 4, 5), (5, 3, 4)], 4: [(3, 4, 5, 3), (4, 3, 4, 5)], 5: [(3, 4, 3, 4, 3), (4, 3, 4, 3, 4)]}
+    for d in range(2, 6):
+        for axis in range(d):
+            for li, lens in enumerate(LENS[d]):
+                confs = kernel_configs(d, axis, True)
+                confs = confs[(li + axis) % 3::3] if (ctx.quick or d == 5) else confs
+                per = max(1, 3000 // (int(np.prod(lens)) * (d + 2)))
+                for lo in range(0, len(confs), per):
+                    cases.append({'kind': 'kernel', 'd': d, 'axis': axis, 'G': max(lens), 'rot': li, 'seed': ctx.seed, 'lens': lens,
+                                  'configs': confs[lo:lo + per], 'r2': 1 if d <= 3 else 4})
     if ctx.quick:
         ctx.cap_hit('quick: parameter lattice thinned to %d configurations per kernel (every (m pattern, gamma, h) with nu, dt, delj rotated); '
                     'thorough runs the full product (378 per kernel; 1134 in 1-D)' % len(kernel_configs(3, 0, True)))
@@ -453,6 +563,8 @@ def run(ctx):
             for G in (3, 4, 5):
                 for dt in (1e-6, 1e-3, 1e-1):
                     cases.append({'kind': 'precalc', 'd': d, 'axis': axis, 'G': G, 'dt': dt, 'seed': ctx.seed})
+            for lens in LENS[d]:
+                cases.append({'kind': 'precalc', 'd': d, 'axis': axis, 'G': max(lens), 'dt': 1e-3, 'seed': ctx.seed, 'lens': lens})
     for n in range(1, 9):
         cases.append({'kind': 'tridiag', 'n': n, 'seed': ctx.seed})
     # drivers
@@ -498,6 +610,17 @@ def run(ctx):
                               mig=[], theta0=1.0, T=1.0, tf=1e-2, delj=0, grid='D', multistep=True))
     cases.append(dict(kind='driver', d=1, G=6, seed=ctx.seed, units=(0, 6), nus=[4.0], gammas=[30.0], hs=[0.2], mig=[], theta0=1.0, T=1.0, tf=1e-2, delj=0, grid='D',
                       multistep=True, beta=1.0))
+    # parameters that change in time, one family at a time and all together
+    for d, G in ((1, 6), (2, 4), (3, 3), (4, 3), (5, 3)):
+        mig = [((a_, b_), 0.4 + 0.3 * a_ + 0.1 * b_) for a_ in range(d) for b_ in range(d) if a_ != b_]
+        for fam in ('nu', 'm', 'gamma', 'h', 'theta0', 'all'):
+            if d == 1 and fam == 'm':
+                continue
+            if ctx.quick and d >= 4 and fam not in ('m', 'all'):
+                continue
+            cases.append(dict(kind='driver_varying', d=d, G=G, seed=ctx.seed, units=(0, min(G ** d, 9 if d <= 3 else 4)), nus=[2.0, 1.5, 3.0, 2.5, 1.2][:d],
+                              gammas=[1.0, -2.0, 0.5, -1.0, 1.5][:d], hs=[0.2, 0.5, 0.7, 0.4, 0.3][:d], mig=mig, theta0=1.0, tf=1e-2, delj=0, grid='D',
+                              family=fam))
     for d, G in ((1, 6), (2, 5), (3, 4)):
         cases.append({'kind': 'driver_history', 'd': d, 'G': G, 'seed': ctx.seed})
     from mc.evidence import Collector
